@@ -44,6 +44,10 @@ type indexedDocument struct {
 	dict    *dictionary     // The corpus dictionary for this document
 	s       *searchSet      // The searchset for this document
 	runes   []rune
+	// The names a corpus document was added under. They are reported as they
+	// were given: the index name joins them with the path separator and cannot
+	// be split again when one of them contains it.
+	category, name, variant string
 }
 
 func (d *indexedDocument) generateSearchSet(q int) {
@@ -109,6 +113,7 @@ func (c *Classifier) addDocument(category, name, variant string, id *indexedDocu
 	// compute their associated search data eagerly so they are ready for matching against
 	// candidates.
 	indexName := c.generateDocName(category, name, variant)
+	id.category, id.name, id.variant = category, name, variant
 	id.generateSearchSet(c.q)
 	id.s.origin = indexName
 	c.docs[indexName] = id
